@@ -638,6 +638,7 @@ var assumptionText = map[string]string{
 	"A-DET":     "assumed contract clauses (kind `assumes`): each extractMetadata result is a deterministic function of the bytes of its input",
 	"A-STDSRC":  "integer-only standard library functions (image.*.PixOffset, At/Set accessors, color conversions) are executed symbolically from the installed standard library's source",
 	"A-FRAME":   "a function called through its contract may change scalar contents of the objects reachable from its arguments but does not reassign their pointer/interface-valued fields",
+	"A-APPEND":  "the result of append is a fresh backing array holding the old elements followed by the new ones; sharing of spare capacity with the argument slice is not modelled",
 	"A-PAR":     "sync.Once.Do and parallel.RunWorkers behave as documented",
 }
 
